@@ -146,12 +146,21 @@ def scopedOracle (c : Case) (impl : String) : String :=
   | none => if impl == "panic" || impl == "timeout" then "ok" else "FAIL C09: unparsable observation"
   | some o =>
     let outer := (o.probes.map probeView).filter fun v => v.1 == "P0" || v.1 == "P9" || v.1 == "P3"
+    -- tokens delivered to the outer probes must all pass the (restored) filter
+    let kindsOf := fun (p : String) =>
+      let r := restOfState p
+      let inner := ((r.drop 1).dropEnd 1).toString
+      if inner.isEmpty then [] else (inner.splitOn ",").map fun it => nat! ((it.splitOn ".").headD "")
+    let leaked := (o.probes.filter fun p => let v := probeView p; v.1 == "P0" || v.1 == "P9" || v.1 == "P3").any fun p =>
+      (kindsOf p).any fun k => !Spec.keeps c.filter ⟨k, 0⟩
     match outer with
     | [] => "SKIP no outer probes"
     | first :: rest =>
       let bad := rest.filter fun v => v.2 != first.2
-      if bad.isEmpty then "ok"
-      else s!"FAIL C09: the enclosing context/filter seen at {first.1} is {first.2}, but at {(bad.headD first).1} it is {(bad.headD first).2}"
+      if !bad.isEmpty then
+        s!"FAIL C09: the enclosing context/filter seen at {first.1} is {first.2}, but at {(bad.headD first).1} it is {(bad.headD first).2}"
+      else if leaked then "FAIL C09: after a scoped combinator returned, the lexer delivers a token its filter rejects"
+      else "ok"
 
 /-! ### C10: bracket matching -/
 
